@@ -807,7 +807,10 @@ impl Engine for C12 {
                 }
             }
         }
-        if sc.e2e && !malformed_cfg {
+        // (only with observations listed in ascending order: with any other order the unchanged code
+        // leaves holes among its placeholders, which costs the next run a download - and the real
+        // process has no network)
+        if sc.e2e && !malformed_cfg && sc.format.obs_order == 0 {
             if let Some(v) = self.e2e_lane(sc, &boc, today, pt, st, &mut digest) {
                 push(v, &mut violations);
             }
@@ -988,7 +991,7 @@ impl Engine for C12 {
         "exploration"
     }
     fn rule(&self) -> String {
-        "Per simulation one seeded publication calendar over 2-4 years (weekends, fixed+random holidays, 0-3 gaps of 3-11 days placed at random / across a year end / in early January; some spans straddle the 2016/2017 noon->daily seam; every published value unique with >=5 decimals), a simulated today, a published-today flag, 4-14 look-up dates biased to today-9..today+2, gap ends +-, Jan 1-8 / Dec 24-31, the seam, plus uniform; each look-up runs the real RateLoader/JsonRemoteRateLoader in a fresh simulated process with an empty cache against SimBoC; 1-2 sequences of 2-5 nearby dates (steps of +-1..4 or +-7/8 days) are looked up by ONE loader in one process (rows of a CSV share a loader), each answer still compared with the model; plus 1-3 application runs (CSV rows with USD/CAD/other currency, with/without explicit rate, separate commission currency) through run_acb_app_to_delta_models and through run_acb_app_to_console (the Amount cell of every USD row on the captured stdout must be 10000 x the expected rate to the cent; a rejected run must explain itself on stderr and print no tables). One fifth of simulations damage 1-4 observations (obs_malformed). One third add 1-2 degraded-network runs: an earlier process (1-370 days before, healthy network, CSV or in-memory cache) leaves its cache, today's process looks 1-4 dates up by one loader while every other request meets a network fault (error / HTML body / truncated JSON / empty body; a third of these runs meet a healthy network instead: a plain run over an earlier run's cache); every Ok must be the model's answer, an Err is accepted only once a fault has fired in that run. The order of the observations in the server's response is a format knob (ascending, descending, a few listed late, a few listed twice, a few of the neighbouring years listed as well). Application runs include return-of-capital rows and, in a third of the simulations, another date format with the matching --date-fmt. One simulation in twelve also runs the real acb binary (clap incl. --date-fmt, main, home-directory look-up, real file system) over a prepared ~/.acb with complete years for every needed date and checks exit status and Amount figures. In a third of the simulations the processes learn 'today' from the simulated system clock and a per-process TZ (5/8/12 h west, 1/9/13 h east of UTC; local time 01:00-23:00) through the real today_local() instead of the library's test override. Oracle: reference model (rate of the date if in the snapshot; else error if date >= today; else first present of d-1..d-7; else error), exact for noon values, |rate*v-1|<1e-9 for daily. evaluations = simulations; distinct_nontrivial = distinct simulations with at least one look-up that needed a look-back or had no usable rate.".to_string()
+        "Per simulation one seeded publication calendar over 2-4 years (weekends, fixed+random holidays, 0-3 gaps of 3-11 days placed at random / across a year end / in early January; some spans straddle the 2016/2017 noon->daily seam; every published value unique with >=5 decimals), a simulated today, a published-today flag, 4-14 look-up dates biased to today-9..today+2, gap ends +-, Jan 1-8 / Dec 24-31, the seam, plus uniform; each look-up runs the real RateLoader/JsonRemoteRateLoader in a fresh simulated process with an empty cache against SimBoC; 1-2 sequences of 2-5 nearby dates (steps of +-1..4 or +-7/8 days) are looked up by ONE loader in one process (rows of a CSV share a loader), each answer still compared with the model; plus 1-3 application runs (CSV rows with USD/CAD/other currency, with/without explicit rate, separate commission currency) through run_acb_app_to_delta_models and through run_acb_app_to_console (the Amount cell of every USD row on the captured stdout must be 10000 x the expected rate to the cent; a rejected run must explain itself on stderr and print no tables). One fifth of simulations damage 1-4 observations (obs_malformed). One third add 1-2 degraded-network runs: an earlier process (1-370 days before, healthy network, CSV or in-memory cache) leaves its cache, today's process looks 1-4 dates up by one loader while every other request meets a network fault (error / HTML body / truncated JSON / empty body; a third of these runs meet a healthy network instead: a plain run over an earlier run's cache); every Ok must be the model's answer, an Err is accepted only once a fault has fired in that run. The order of the observations in the server's response is a format knob (ascending, descending, a few listed late, a few listed twice, a few of the neighbouring years listed as well). Application runs include return-of-capital rows and, in a third of the simulations, another date format with the matching --date-fmt. One simulation in twelve also runs the real acb binary (clap incl. --date-fmt, main, home-directory look-up, real file system) over a home directory prepared by a simulated run of the same code that looked the needed dates up, and checks exit status and Amount figures. In a third of the simulations the processes learn 'today' from the simulated system clock and a per-process TZ (5/8/12 h west, 1/9/13 h east of UTC; local time 01:00-23:00) through the real today_local() instead of the library's test override. Oracle: reference model (rate of the date if in the snapshot; else error if date >= today; else first present of d-1..d-7; else error), exact for noon values, |rate*v-1|<1e-9 for daily. evaluations = simulations; distinct_nontrivial = distinct simulations with at least one look-up that needed a look-back or had no usable rate.".to_string()
     }
     fn state_measure(&self) -> String {
         "distinct (look-back depth 0..7|none, crosses year, series, relation of date to today, malformed config) tuples".to_string()
@@ -1066,32 +1069,60 @@ impl C12 {
             st.harness_error(e);
             return None;
         }
-        // every date the rows need, per the model, and a year file that covers each of them
-        let mut years: std::collections::BTreeSet<i32> = std::collections::BTreeSet::new();
+        // Every date the rows need, per the model. The cache is prepared by the code under test itself:
+        // a simulated process (healthy SimBoC, same day) looks those dates up over an empty simulated
+        // home directory, and whatever files it leaves there - in whatever layout and format this
+        // implementation uses - are copied into the real process's $HOME.
+        let mut needed: std::collections::BTreeSet<time::Date> = std::collections::BTreeSet::new();
         for row in rows {
             let usd_lookup = |cur: &Option<String>, fx: &Option<String>| fx.is_none() && cur.as_ref().map(|c| c.trim().to_uppercase() == "USD").unwrap_or(false);
             if usd_lookup(&row.cur, &row.fx) || usd_lookup(&row.ccur, &row.cfx) {
-                for d in ref_touched(boc, today, pt, pd(&row.trade)) {
-                    years.insert(d.year());
-                }
+                needed.insert(pd(&row.trade));
             }
         }
+        let years: std::collections::BTreeSet<i32> = needed.iter().flat_map(|d| ref_touched(boc, today, pt, *d)).map(|d| d.year()).collect();
+        crate::interpose::with_world(|w| w.fs.disk = crate::simfs::Disk::new());
+        let prep = run_fx_process(FxPlan {
+            data: boc.clone(),
+            today,
+            published_today: pt,
+            force: false,
+            cache: CacheKind::Csv,
+            mem_in: MemState::new(),
+            lookups: needed.iter().copied().collect(),
+            app_rows: None,
+            app_files: 1,
+            app_console: false,
+            app_legacy_date: false,
+            app_date_fmt: 0,
+            net_faults: vec![],
+            server_today: None,
+            clock_tz: None,
+            now_shift: 0,
+            fs_faults: FsFaultSpec::default(),
+            knobs: Knobs::default(),
+            hash_seed: sc.hash_seed ^ 0x21,
+        });
+        st.bump("sim.processes");
+        if prep.panic.is_some() || prep.lookups.iter().any(|l| l.result.is_err()) {
+            return None; // (the simulated lanes judge that; nothing to prepare a cache from)
+        }
+        let prepared = crate::interpose::with_world(|w| w.fs.disk.all_files());
         let dir = crate::c09::e2e_dir();
         let root = format!("{}-c12", crate::c09::e2e_scratch());
         let _ = std::fs::remove_dir_all(&root);
-        if std::fs::create_dir_all(format!("{}/home/.acb", root)).is_err() {
+        if std::fs::create_dir_all(format!("{}/home", root)).is_err() {
             st.harness_error(format!("e2e scratch {}", root));
             return None;
         }
-        for y in &years {
-            let mut text = String::new();
-            let mut day = ymd(*y, 1, 1);
-            while day.year() == *y && (day < today || (day == today && boc.in_snapshot(day, today, pt))) {
-                let rate = if boc.in_snapshot(day, today, pt) { boc.expected_rate(day).map(|x| x.to_string()).unwrap_or_else(|| "0".to_string()) } else { "0".to_string() };
-                text.push_str(&format!("{},{}\n", day, rate));
-                day += Duration::days(1);
+        for (p, data) in &prepared {
+            if let Some(rel) = p.strip_prefix("/simfs/home/") {
+                let dest = format!("{}/home/{}", root, rel);
+                if let Some(parent) = std::path::Path::new(&dest).parent() {
+                    let _ = std::fs::create_dir_all(parent);
+                }
+                let _ = std::fs::write(&dest, data);
             }
-            let _ = std::fs::write(format!("{}/home/.acb/rates-{}.csv", root, y), text);
         }
         let _ = std::fs::write(format!("{}/tx.csv", root), app_csv_fmt(rows, 0, sc.legacy_date_col, sc.date_fmt));
         let mut args: Vec<String> = vec!["tx.csv".to_string()];
@@ -1112,7 +1143,9 @@ impl C12 {
             .env("ACBSIM_PID", "4321")
             .stdin(std::process::Stdio::null())
             .output();
-        let _ = std::fs::remove_dir_all(&root);
+        if std::env::var("VERIF_KEEP_E2E").is_err() {
+            let _ = std::fs::remove_dir_all(&root);
+        }
         let o = match o {
             Ok(o) => o,
             Err(e) => {
@@ -1125,7 +1158,8 @@ impl C12 {
         let out_txt = String::from_utf8_lossy(&o.stdout).to_string();
         let err_txt = String::from_utf8_lossy(&o.stderr).to_string();
         *digest = fnv64_add(*digest, out_txt.as_bytes());
-        let ctx = format!("real acb binary (end-to-end lane), today {} published_today {}, ~/.acb prepared with complete years {:?}, args {:?}, rows:\n{}", today, pt, years, args, app_csv_fmt(rows, 0, sc.legacy_date_col, sc.date_fmt));
+        let prepared_list: Vec<String> = prepared.iter().map(|(p, d)| format!("{} ({} bytes)", p, d.len())).collect();
+        let ctx = format!("prepared files: {:?}\nreal acb binary (end-to-end lane), today {} published_today {}, home directory prepared by a simulated run of the same code that looked the dates up (years {:?}), args {:?}, rows:\n{}", prepared_list, today, pt, years, args, app_csv_fmt(rows, 0, sc.legacy_date_col, sc.date_fmt));
         if o.status.code() != Some(0) {
             return Some(Violation { kind: "app_error_where_rates_exist".into(), signature: "the real binary rejects rows the property accepts (every needed date is in its cache)".into(), detail: format!("{}\nexit {:?}, stderr: {}", ctx, o.status.code(), err_txt.lines().last().unwrap_or("")) });
         }
